@@ -158,8 +158,29 @@ pub fn check_ro<P: SimPrefix, L: SimVal, Rr: SimVal>(ctx: &mut Ctx, a: &TrieView
             }
         }
     }
+    // keys stored in both operands under different representations (C18: still one key)
+    let twice: Vec<Key> = ea.iter().filter(|x| eb.iter().any(|y| y.key == x.key && y.raw != x.raw)).map(|x| x.key).collect();
+    if !twice.is_empty() {
+        ctx.rare("probe.setop on operands storing one network under two representations");
+    }
+    if ctx.is("C18") && !twice.is_empty() {
+        let (u, i, d, cd) = ctx.obs("C18", "setops", || {
+            (
+                a.union(b.clone()).take(cap2).map(|x| union_item(&x).0).collect::<Vec<_>>(),
+                a.intersection(b.clone()).take(cap2).map(|(p, _, _)| p.raw().key()).collect::<Vec<_>>(),
+                a.difference(b.clone()).take(cap2).map(|x| x.prefix.raw().key()).collect::<Vec<_>>(),
+                a.covering_difference(b.clone()).take(cap2).map(|(p, _)| p.raw().key()).collect::<Vec<_>>(),
+            )
+        })?;
+        for k in &twice {
+            let n: Vec<&SItem> = u.iter().filter(|x| x.raw.key() == *k).collect();
+            chk!(ctx, "C18", n.len() == 1 && n[0].tag == 0, "host-bits-matter:union", "network {k} is stored in both operands (with different host bits) but union yields {:?}; {desc}", n);
+            chk!(ctx, "C18", i.iter().filter(|x| *x == k).count() == 1, "host-bits-matter:intersection", "network {k} is stored in both operands (with different host bits) but intersection yields it {} times; {desc}", i.iter().filter(|x| *x == k).count());
+            chk!(ctx, "C18", !d.contains(k) && !cd.contains(k), "host-bits-matter:difference", "network {k} is stored in both operands (with different host bits) but (covering) difference yields it; {desc}");
+        }
+    }
     // ---- intersection
-    if ctx.wants("C06") {
+    if ctx.wants("C06") || ctx.wants("C18") {
         let (got, f, c) = ctx.obs("C06", "intersection", || {
             let mut it = a.intersection(b.clone());
             let (v, f, c) = drain(&mut it, cap2);
@@ -172,9 +193,13 @@ pub fn check_ro<P: SimPrefix, L: SimVal, Rr: SimVal>(ctx: &mut Ctx, a: &TrieView
         chk!(ctx, "C06", !c, "diverge:intersection", "intersection yields more than {cap2} items; {desc}");
         chk!(ctx, "C06", cores(&got) == cores(&exp), format!("intersection:items:{relsig}"), "intersection yields {:?}, expected {:?}; {desc}", got, exp);
         chk!(ctx, "C06", f, "fused:intersection", "intersection yields an item after None; {desc}");
+        for g in &got {
+            let (ra, rb) = (ea.iter().find(|x| x.key == g.raw.key()).map(|x| x.raw), eb.iter().find(|x| x.key == g.raw.key()).map(|x| x.raw));
+            chk!(ctx, "C18", Some(g.raw) == ra || Some(g.raw) == rb, "repr:intersection", "intersection item reports prefix {}, stored representations are {:?} / {:?}", g.raw, ra, rb);
+        }
     }
     // ---- difference
-    if ctx.wants("C07") || ctx.wants("C08") {
+    if ctx.wants("C07") || ctx.wants("C08") || ctx.wants("C18") {
         let (got, f, c) = ctx.obs("C07", "difference", || {
             let mut it = a.difference(b.clone());
             let (v, f, c) = drain(&mut it, cap2);
@@ -187,6 +212,14 @@ pub fn check_ro<P: SimPrefix, L: SimVal, Rr: SimVal>(ctx: &mut Ctx, a: &TrieView
         chk!(ctx, "C07", !c, "diverge:difference", "difference yields more than {cap2} items; {desc}");
         chk!(ctx, "C07", cores(&got) == cores(&exp), format!("difference:items:{relsig}"), "difference yields {:?}, expected {:?}; {desc}", got, exp);
         chk!(ctx, "C07", f, "fused:difference", "difference yields an item after None; {desc}");
+        for g in &got {
+            let ra = ea.iter().find(|x| x.key == g.raw.key()).map(|x| x.raw);
+            chk!(ctx, "C18", Some(g.raw) == ra, "repr:difference", "difference item reports prefix {}, stored representation is {:?}", g.raw, ra);
+            if let Some(a) = g.ann {
+                let rb = eb.iter().find(|x| x.key == a.0.key()).map(|x| x.raw);
+                chk!(ctx, "C18", Some(a.0) == rb, "repr:difference-lpm", "difference `right` annotation reports prefix {}, stored representation is {:?}", a.0, rb);
+            }
+        }
         if cores(&got) == cores(&exp) {
             chk!(ctx, "C08", anns(&got) == anns(&exp), format!("difference:lpm:{relsig}"), "difference `right` annotations {:?}, true longest-prefix matches in b {:?}; {desc}", anns(&got), anns(&exp));
         }
@@ -218,7 +251,7 @@ pub fn check_mut<P: SimPrefix, L: SimVal, Rr: SimVal>(ctx: &mut Ctx, mut a: Trie
         addrs.dedup();
         addrs.len() == n
     };
-    if ctx.wants("C07") || ctx.wants("C08") || ctx.wants("C13") || ctx.wants("C14") {
+    if ctx.wants("C07") || ctx.wants("C08") || ctx.wants("C13") || ctx.wants("C14") || ctx.wants("C18") {
         let (got, c, mut addrs) = ctx.obs("C07", "difference_mut", || {
             let mut it = a.difference_mut(&b);
             let (v, _, c) = drain(&mut it, cap2);
@@ -232,6 +265,10 @@ pub fn check_mut<P: SimPrefix, L: SimVal, Rr: SimVal>(ctx: &mut Ctx, mut a: Trie
             chk!(ctx, "C08", anns(&got) == anns(&exp), "difference_mut:lpm", "difference_mut `right` annotations {:?}, true matches {:?}; {desc}", anns(&got), anns(&exp));
         }
         chk!(ctx, "C14", L::IS_ZST || distinct(&mut addrs), "alias:difference_mut", "difference_mut handed out aliasing references; {desc}");
+        for g in &got {
+            let ra = ea.iter().find(|x| x.key == g.raw.key()).map(|x| x.raw);
+            chk!(ctx, "C18", Some(g.raw) == ra, "repr:difference_mut", "difference_mut item reports prefix {}, stored representation is {:?}", g.raw, ra);
+        }
         let (got, c, mut addrs) = ctx.obs("C07", "covering_difference_mut", || {
             let mut it = a.covering_difference_mut(&b);
             let (v, _, c) = drain(&mut it, cap2);
@@ -244,7 +281,7 @@ pub fn check_mut<P: SimPrefix, L: SimVal, Rr: SimVal>(ctx: &mut Ctx, mut a: Trie
         chk!(ctx, "C14", L::IS_ZST || distinct(&mut addrs), "alias:covering_difference_mut", "covering_difference_mut handed out aliasing references; {desc}");
     }
     if pick % 2 == 0 {
-        if ctx.wants("C05") || ctx.wants("C13") || ctx.wants("C14") {
+        if ctx.wants("C05") || ctx.wants("C13") || ctx.wants("C14") || ctx.wants("C18") {
             let (got, c, mut al, mut ar) = ctx.obs("C05", "union_mut", || {
                 let mut it = a.union_mut(b);
                 let (v, _, c) = drain(&mut it, cap2);
@@ -262,9 +299,13 @@ pub fn check_mut<P: SimPrefix, L: SimVal, Rr: SimVal>(ctx: &mut Ctx, mut a: Trie
             let exp = model_union(&ea, &eb);
             chk!(ctx, "C05", !c && cores(&got) == cores(&exp), "union_mut:items", "union_mut yields {:?}, expected {:?}; {desc}", got, exp);
             chk!(ctx, "C13", !c && cores(&got) == cores(&exp), "mirror:union_mut", "union_mut yields {:?}, read-only twin {:?}; {desc}", got, exp);
+            for g in &got {
+                let (ra, rb) = (ea.iter().find(|x| x.key == g.raw.key()).map(|x| x.raw), eb.iter().find(|x| x.key == g.raw.key()).map(|x| x.raw));
+                chk!(ctx, "C18", Some(g.raw) == ra || Some(g.raw) == rb, "repr:union_mut", "union_mut item reports prefix {}, stored representations are {:?} / {:?}", g.raw, ra, rb);
+            }
             chk!(ctx, "C14", (L::IS_ZST || distinct(&mut al)) && (Rr::IS_ZST || distinct(&mut ar)), "alias:union_mut", "union_mut handed out aliasing references; {desc}");
         }
-    } else if ctx.wants("C06") || ctx.wants("C13") || ctx.wants("C14") {
+    } else if ctx.wants("C06") || ctx.wants("C13") || ctx.wants("C14") || ctx.wants("C18") {
         let (got, c, mut al, mut ar) = ctx.obs("C06", "intersection_mut", || {
             let mut it = a.intersection_mut(b);
             let (v, _, c) = drain(&mut it, cap2);
@@ -275,6 +316,10 @@ pub fn check_mut<P: SimPrefix, L: SimVal, Rr: SimVal>(ctx: &mut Ctx, mut a: Trie
         let exp = model_intersection(&ea, &eb);
         chk!(ctx, "C06", !c && cores(&got) == cores(&exp), "intersection_mut:items", "intersection_mut yields {:?}, expected {:?}; {desc}", got, exp);
         chk!(ctx, "C13", !c && cores(&got) == cores(&exp), "mirror:intersection_mut", "intersection_mut yields {:?}, read-only twin {:?}; {desc}", got, exp);
+        for g in &got {
+            let (ra, rb) = (ea.iter().find(|x| x.key == g.raw.key()).map(|x| x.raw), eb.iter().find(|x| x.key == g.raw.key()).map(|x| x.raw));
+            chk!(ctx, "C18", Some(g.raw) == ra || Some(g.raw) == rb, "repr:intersection_mut", "intersection_mut item reports prefix {}, stored representations are {:?} / {:?}", g.raw, ra, rb);
+        }
         chk!(ctx, "C14", (L::IS_ZST || distinct(&mut al)) && (Rr::IS_ZST || distinct(&mut ar)), "alias:intersection_mut", "intersection_mut handed out aliasing references; {desc}");
     }
     Ok(())
